@@ -831,7 +831,9 @@ class Harness:
         roots.update(self.rib_roots())
         cp = Snapshot(roots, digests=False)
         keys = list(roots)
-        scalar_keys = [k for k in self.hot if isinstance(cp.values[k], _SCALARS) and k not in ATTR_CACHE_KEYS]
+        # roots an already decoded object may read when it is rendered: every hot root but the attribute-block cache (only
+        # read by unpack, and rewritten by nearly every letter) and the API counter
+        scalar_keys = [k for k in self.hot if k not in ATTR_CACHE_KEYS and k not in _NOT_CANON]
         ribs_before = rib_snapshot(w)
         # the objects the prefix returned, to depth 7 (Update -> UpdateCollection -> AttributeCollection -> dict -> Attribute -> fields)
         # (the session objects every message points at are not part of a message)
@@ -848,8 +850,8 @@ class Harness:
             seq = prefix + [letter]
             collide = self.collides(seq)
             d = step(w, letter)
-            # an earlier object is rendered again when the step touched anything it is made of (or a class-level scalar such
-            # as a rewritten ID); always for the short sequences and the audited prefixes
+            # an earlier object is rendered again when the step touched anything it is made of, or any other hot root (a
+            # rewritten class ID, a memo); always for the short sequences and the audited prefixes
             again = audit or len(prefix) < 2 or graph.dirty(gkeys) or cp.dirty(scalar_keys)
             mism, info = self.judge(mode, seq, decs + [d], ribs_before, True, rerender_from=0 if again else len(prefix), canon=canon)
             info['collide'] = collide
